@@ -176,13 +176,17 @@ class C01(Machine):
                     "config": {"lru": lru, "layer": "pair"}, "ops": ops}
         # ---- random histories
         cands = [s for s in SPECS if s.mutators()]
+        # the one class with durable state gets a larger share
+        cands += [s for s in cands if s.name == "MutualInfoClimateNetwork"] * 3
         spec = cands[a.randrange(len(cands))]
         nobj = a.choice((1, 1, 2, 3))
         ops = []
         live = []
+        build_ms = {}
         for i in range(nobj):
+            build_ms[i] = a.randrange(10 ** 9)
             ops.append({"op": "build", "obj": i, "cls": spec.name,
-                        "ms": a.randrange(10 ** 9)})
+                        "ms": build_ms[i]})
             live.append(i)
         qs = queries_for(spec)
         muts = spec.mutators()
@@ -196,8 +200,26 @@ class C01(Machine):
                 ops.append({"op": "query", "obj": i, "name": qn, "kw": kw})
             elif c < 0.93:
                 mu = muts[o.randrange(len(muts))]
-                ops.append({"op": "mutate", "obj": i, "name": mu.name,
-                            "as": o.randrange(10 ** 9)})
+                mop = {"op": "mutate", "obj": i, "name": mu.name,
+                       "as": o.randrange(10 ** 9)}
+                ops.append(mop)
+                if spec.name == "MutualInfoClimateNetwork" and \
+                        mu.name == "set_winter_only" and o.random() < 0.6:
+                    # fault: the write of the durable cache file is cut
+                    # short (disk full) -- the call may fail, the object is
+                    # then dropped and rebuilt from the same data in the
+                    # same directory: only the file survives
+                    mop["cut"] = o.choice((0, 10, 100, 200, 400))
+                    ops.append({"op": "discard", "obj": i,
+                                "ms": build_ms[i], "after_fault": True})
+                    # the same change again, without the fault: this reads
+                    # whatever the cut write left behind
+                    ops.append({"op": "mutate", "obj": i, "name": mu.name,
+                                "as": mop["as"]})
+                    for _ in range(2):
+                        qn, kw = qs[o.randrange(len(qs))]
+                        ops.append({"op": "query", "obj": i, "name": qn,
+                                    "kw": kw})
             else:
                 ops.append({"op": "discard", "obj": i,
                             "ms": o.randrange(10 ** 9)})
@@ -234,6 +256,20 @@ class C01(Machine):
                     if isinstance(obj, C.Raised):
                         R.trace.append((step, "build-raised", obj.type))
                         objs[op["obj"]] = {"spec": spec, "retired": True}
+                        # the same constructor call in an empty directory
+                        shutil.rmtree(tdir, ignore_errors=True)
+                        with cwd(tdir):
+                            tw = C.call(spec.build, clone(model))
+                        if not isinstance(tw, C.Raised):
+                            R.violate(
+                                f"{self.pid}|{cls}|working-directory|"
+                                f"constructor",
+                                f"step {step}: constructing {cls} in the "
+                                f"run's working directory raised {obj!r}; "
+                                f"the same call in an empty directory "
+                                f"succeeds (files left behind: "
+                                f"{sorted(os.listdir(odir))})",
+                                victim=f"{cls}|constructor")
                         continue
                     objs[op["obj"]] = {
                         "spec": spec, "model": model, "obj": obj,
@@ -272,8 +308,32 @@ class C01(Machine):
                         continue
                     args = mu.gen(random.Random(op["as"]), model)
                     with cwd(odir):
-                        out = C.call(mu.apply, st["obj"], args, model)
+                        if "cut" in op:
+                            out = self._with_write_cut(
+                                R, op["cut"], mu.apply, st["obj"], args,
+                                model)
+                        else:
+                            out = C.call(mu.apply, st["obj"], args, model)
                     sig.append("m:" + mu.name)
+                    if isinstance(out, C.Raised) and "cut" in op:
+                        # the injected fault made the call fail: the object
+                        # is in an unknown state and is dropped
+                        R.trace.append((step, "mutator-failed-under-fault",
+                                        mu.name, out.type))
+                        st["retired"] = True
+                        continue
+                    if isinstance(out, C.Raised) and os.path.isdir(odir) \
+                            and os.listdir(odir) and out.type in (
+                                "UnpicklingError", "EOFError"):
+                        R.violate(
+                            f"{self.pid}|{spec.name}|working-directory|"
+                            f"{mu.name}",
+                            f"step {step}: {mu.name} raised {out!r} because "
+                            f"of a file left behind in the working "
+                            f"directory ({sorted(os.listdir(odir))})",
+                            victim=f"{spec.name}|{mu.name}")
+                        st["retired"] = True
+                        continue
                     if isinstance(out, C.Raised):
                         R.probe("valid_mutator_raised")
                         R.trace.append((step, "mutator-raised", mu.name,
@@ -296,6 +356,25 @@ class C01(Machine):
             shutil.rmtree(base, ignore_errors=True)
         R.opsig = C.digest_of(repr(sig))
         return R.as_dict()
+
+    @staticmethod
+    def _with_write_cut(R, cut, f, *a):
+        """Run f with every file write of the process cut at `cut` bytes
+        (RLIMIT_FSIZE, SIGXFSZ ignored): short write / disk full."""
+        import resource
+        import signal
+        soft, hard = resource.getrlimit(resource.RLIMIT_FSIZE)
+        old = signal.signal(signal.SIGXFSZ, signal.SIG_IGN)
+        try:
+            resource.setrlimit(resource.RLIMIT_FSIZE, (cut, hard))
+            out = C.call(f, *a)
+        finally:
+            resource.setrlimit(resource.RLIMIT_FSIZE, (soft, hard))
+            signal.signal(signal.SIGXFSZ, old)
+        R.fault("cache_write_cut", 1)
+        if isinstance(out, C.Raised):
+            R.fault("cache_write_cut_raised", 1)
+        return out
 
     def _twin(self, rec, tdir):
         """Fresh twin for the record's model; None if not judgeable."""
